@@ -21,7 +21,7 @@ RULE = ("random aggregates of 1-6 two-level molecules (mult 2 up to 5 molecules,
         "non-trivial iff at least one non-zero coupling and, for mult 2, at least one pair of two-exciton states differing by one move.")
 ASSUMPTIONS = ["two-level molecules without vibrational modes (vibronic structure is C10's domain)",
                "within a band the order of states is left to the implementation: elements are addressed through Aggregate.elsigs"]
-MIN_NONTRIVIAL = {"quick": 80, "thorough": 500}
+MIN_NONTRIVIAL = {"quick": 100, "thorough": 900}
 REQUIRED_CLAUSES = ["hamiltonian==frenkel", "dipole==frenkel", "band-order", "permutation-invariant", "unit-independent", "dipole-dipole==SI"]
 TIMEOUT = {"quick": 900, "thorough": 3400}
 EPS = numpy.finfo(float).eps
@@ -30,7 +30,7 @@ EUNITS = ["1/cm", "eV", "meV", "THz", "int", "1/fs"]
 
 def gen_cases(tier, rng):
     cases = []
-    n = 70 if tier == "quick" else 450
+    n = 110 if tier == "quick" else 900
     for i in range(n):
         N = int(rng.integers(1, 7))
         mult = int(rng.integers(1, 3))
@@ -49,7 +49,7 @@ def gen_cases(tier, rng):
                       "build_ctx": str(rng.choice(["none", "1/cm", "eV", "same"])),
                       "coupling_api": str(rng.choice(["pairwise", "matrix"])),
                       "seed": int(rng.integers(1 << 30)), "cost": 1 + (N ** mult) / 4.0})
-    ng = 40 if tier == "quick" else 300
+    ng = 70 if tier == "quick" else 600
     for i in range(ng):
         N = int(rng.integers(2, 5))
         kind = str(rng.choice(["random", "collinear", "orthogonal", "random"]))
@@ -67,7 +67,23 @@ def gen_cases(tier, rng):
             for k in range(N):
                 pos[k] = [r3((k + 1) * rng.uniform(5, 15)), 0.0, 0.0]
                 dip[k] = [0.0, r3(rng.uniform(1, 8)), 0.0] if k % 2 == 0 else [0.0, 0.0, r3(rng.uniform(1, 8))]
-        cases.append({"cls": "dipole-dipole", "N": N, "kind": kind, "pos": pos, "dip": dip, "epsr": r3(rng.uniform(1.0, 4.0)),
+        # how the user hands over the geometry: float arrays, plain lists/tuples, integer grid coordinates (Python ints or int arrays)
+        ptype = ["float-array", "int-list", "float-list", "int-array", "mixed"][i % 5]
+        if ptype.startswith("int") or ptype == "mixed":
+            used = set()
+            for k in range(N):
+                while True:
+                    q = tuple(int(x) for x in rng.integers(-12, 13, size=3) * (1 if kind != "orthogonal" else numpy.array([1, 0, 0])))
+                    if kind == "collinear":
+                        q = tuple(int(x) for x in numpy.array([1, 2, -1]) * int(rng.integers(-9, 10)))
+                    if q not in used and (kind != "orthogonal" or q[0] != 0 or not used):
+                        used.add(q)
+                        break
+                pos[k] = [float(x) for x in q] if (ptype == "mixed" and k % 2 == 0) else [int(x) for x in q]
+            if kind == "collinear":
+                for k in range(N):
+                    dip[k] = [r3(x) for x in numpy.array([1.0, 2.0, -1.0]) / numpy.sqrt(6.0) * rng.uniform(1, 8)]
+        cases.append({"cls": "dipole-dipole", "N": N, "kind": kind, "pos": pos, "dip": dip, "epsr": r3(rng.uniform(1.0, 4.0)), "ptype": ptype,
                       "lunit": "A", "ectx": str(rng.choice(["none", "1/cm", "eV"])), "cost": 1})
     return cases
 
@@ -233,7 +249,18 @@ def run_case(case, ctx):
             m = qr.Molecule([0.0, 1.0 + 0.01 * k])
             m.set_dipole(0, 1, [float(x) for x in case["dip"][k]])
             # Molecule.position is a plain attribute in Angstrom (not units managed)
-            m.position = numpy.array([float(x) for x in case["pos"][k]])
+            pt = case.get("ptype", "float-array")
+            pk = case["pos"][k]
+            if pt == "float-array":
+                m.position = numpy.array([float(x) for x in pk])
+            elif pt == "int-array":
+                m.position = numpy.array([int(x) for x in pk])
+            elif pt == "float-tuple":
+                m.position = tuple(float(x) for x in pk)
+            elif pt == "float-list":
+                m.position = [float(x) for x in pk]
+            else:
+                m.position = list(pk)          # ints, or ints and floats mixed between molecules
             mols.append(m)
         agg = qr.Aggregate(molecules=mols)
         cm = contextlib.nullcontext() if case["ectx"] == "none" else qr.energy_units(case["ectx"])
@@ -242,7 +269,7 @@ def run_case(case, ctx):
         rc = numpy.array(agg.resonance_coupling, dtype=float)
         # positions as stored (internal units)
         stored = numpy.array([numpy.array(m.position, dtype=float) for m in mols])
-    det = {"N": N, "kind": case["kind"], "epsr": case["epsr"], "lunit": case["lunit"], "ectx": case["ectx"]}
+    det = {"N": N, "kind": case["kind"], "epsr": case["epsr"], "lunit": case["lunit"], "ectx": case["ectx"], "positions_given_as": case.get("ptype", "float-array")}
     nz = False
     for a in range(N):
         for b in range(a + 1, N):
